@@ -382,6 +382,48 @@ def run_ladder(ending, dmax, ctx):
                   inputs, True, 'len=%d bound=%d' % (mlen, bound))
 
 
+# -- ranges and direct references in one graph ----------------------------------
+# cell 0 holds SUM over a block of the cells, the others a constant or the
+# sum of one or two direct references (a running total summed by a range, a
+# common precedent of two range members ...)
+MIXED_N = 4
+
+
+def mixed_options():
+    n = MIXED_N
+    first = [(j, k) for j in range(n) for k in range(j, n)]
+    rest = [()] + [(a,) for a in range(n)] + \
+        [(a, b) for a in range(n) for b in range(a + 1, n)]
+    return first, rest
+
+
+def run_mixed(i0, rest_choice, ctx):
+    n = MIXED_N
+    first, rest = mixed_options()
+    j, k = first[i0]
+    adj = [{v: 1 for v in range(j, k + 1)}]
+    cells = {cell(0): '=SUM(%s:%s)' % (local(j), local(k))}
+    for i, c in enumerate(rest_choice, 1):
+        refs = rest[c]
+        adj.append({v: 1 for v in refs})
+        cells[cell(i)] = ('=' + '+'.join(local(v) for v in refs)) if refs \
+            else i + 1
+    key0 = 'C06/mixed/r=%d/c=%s' % (i0, '.'.join(map(str, rest_choice)))
+    inputs = {'kind': 'mixed', 'i0': i0, 'rest': list(rest_choice)}
+    try:
+        model = lib.compile_dict(cells)
+    except Exception as exc:  # noqa: BLE001
+        ctx.fail(key0 + '/compile', ['compile'], inputs, 'compiles',
+                 lib.exc_obs(exc))
+        return
+    ctx.count('states')
+    for entry in range(n):
+        judge('%s/entry=%d' % (key0, entry), ['via:range+direct'],
+              dict(inputs, entry=entry), adj, entry, model, ctx)
+    shared_evaluator_pass(key0, ['via:range+direct'], inputs, adj, n, model,
+                          ctx, cells)
+
+
 RANGE_OPTS_CACHE = {}
 
 
@@ -583,6 +625,10 @@ def plan(tier):
     for ending in ('unknown-function', 'python-error', 'back-edge', 'value'):
         shards.append({'kind': 'chain', 'ending': ending,
                        'dmax': CHAIN_D[tier], 'weight': 50})
+    first, rest = mixed_options()
+    for i0 in range(len(first)):
+        for c1 in range(len(rest)):
+            shards.append({'kind': 'mixed', 'i0': i0, 'c1': c1})
     for ending in ('unknown-function', 'python-error', 'back-edge'):
         shards.append({'kind': 'ladder', 'ending': ending,
                        'dmax': LADDER_D[tier], 'weight': 30})
@@ -627,6 +673,14 @@ def _run_shard(shard, ctx):
                 for i in range(shard['n'])}})
     elif shard['kind'] == 'deep':
         run_deep(shard['ending'], ctx)
+    elif shard['kind'] == 'mixed':
+        first, rest = mixed_options()
+        for c2 in range(len(rest)):
+            for c3 in range(len(rest)):
+                run_mixed(shard['i0'], (shard['c1'], c2, c3), ctx)
+        if shard['i0'] == 0 and shard['c1'] == 0:
+            ctx.sample({'family': 'mixed', 'cells': {
+                'B1': '=SUM(B2:B4)', 'B2': '=B4', 'B3': '=B2+B4', 'B4': 4}})
     elif shard['kind'] == 'ladder':
         run_ladder(shard['ending'], shard['dmax'], ctx)
         ctx.sample({'ladder': shard['ending'],
@@ -679,6 +733,8 @@ def _replay(inputs, ctx):
         run_deep(inputs['ending'], ctx)
     elif k == 'direct':
         run_graph('direct', inputs['n'], inputs['base'], inputs['code'], ctx)
+    elif k == 'mixed':
+        run_mixed(inputs['i0'], tuple(inputs['rest']), ctx)
     elif k == 'variant':
         run_variant(inputs['via'], inputs['place'], inputs['n'],
                     inputs['base'], inputs['code'], ctx)
